@@ -42,6 +42,7 @@ func genC06(t *rapid.T, tier string) PairCase {
 	}
 	c.StopAt = rapid.IntRange(-1, 8).Draw(t, "stopat")
 	c.StopErr = rapid.Bool().Draw(t, "stoperr")
+	c.StopKeep = rapid.Bool().Draw(t, "stopkeep")
 	return c
 }
 
@@ -146,7 +147,7 @@ func runC06(c PairCase, o *run.Obs) error {
 				calls++
 				if calls-1 == c.StopAt {
 					if c.StopErr {
-						return true, errStop
+						return c.StopKeep, errStop
 					}
 					return false, nil
 				}
@@ -166,7 +167,7 @@ func runC06(c PairCase, o *run.Obs) error {
 		o.Label("early-stop-exercised")
 	}
 	// 4. diffing is read-only
-	if err := w.Check(p.new); err != nil {
+	if err := p.wNew.Check(p.new); err != nil {
 		return fmt.Errorf("%s: new tree changed by diffing: %w", desc, err)
 	}
 	if err := w.Check(p.old); err != nil {
@@ -176,7 +177,7 @@ func runC06(c PairCase, o *run.Obs) error {
 	for _, e := range want {
 		kinds[e.Kind] = true
 	}
-	o.NonTrivial = len(oldModel) > 0 && len(p.new.Model) > 0 && (c.Mode == "unrelated" || (!c.OldNil && p.old.M.Height() != p.new.M.Height())) && len(kinds) == 3
+	o.NonTrivial = len(oldModel) > 0 && len(p.new.Model) > 0 && (c.Mode == "unrelated" || c.Mode == "otherstore" || (!c.OldNil && p.old.M.Height() != p.new.M.Height())) && len(kinds) == 3
 	labelCfg(o, c.Cfg)
 	o.Labelf("mode=%s", c.Mode)
 	o.Labelf("old=%s", c.OldRes)
